@@ -2815,4 +2815,57 @@ def _wit_negmeasure(ctx):
                          f"the neighbouring utility [0,0,0] with probability {b:.3g} (ratio unbounded, e^eps = e)")
 
 
-WITNESSES = {"C01:categorical:isclose-balanced": _wit_isclose, "C01:exponential:negative-measure": _wit_negmeasure}
+def _stale_witness(make, draw, what):
+    """(still_fails, description): the same seeded draws from (a) a fresh instance with the CURRENT epsilon, (b) an instance
+    constructed with another epsilon and then assigned the current one, (c) a fresh instance with the construction epsilon.
+    Stale = (b) differs from (a) [and, where the whole calibration is cached, equals (c)]."""
+    def run(eps0, eps1):
+        m = make(eps0)
+        if eps1 is not None:
+            m.epsilon = eps1
+        return [draw(m) for _ in range(64)]
+    import warnings as _w
+    with _w.catch_warnings():
+        _w.simplefilter("ignore")
+        a_, b_, c_ = run(0.5, None), run(3.0, 0.5), run(3.0, None)
+    return (b_ != a_), what + (" (draws identical to an instance still at epsilon=3.0)" if b_ == c_ else "")
+
+
+def _wit_stale_geometric(ctx):
+    out = []
+    for cls, kw in ((M.Geometric, {}), (M.GeometricTruncated, {"lower": -50, "upper": 50}), (M.GeometricFolded, {"lower": -50, "upper": 50})):
+        f, d = _stale_witness(lambda e, cls=cls, kw=kw: cls(epsilon=e, sensitivity=1, random_state=7, **kw), lambda m: m.randomise(0),
+                              cls.__name__)
+        out.append((f, d))
+    return any(f for f, _ in out), (
+        "Geometric / GeometricTruncated / GeometricFolded compute `_scale = -epsilon/sensitivity` in __init__ and never again: "
+        "g = Geometric(epsilon=3.0); g.epsilon = 0.5 leaves g._scale == -3.0, the sampler's ratio is e^3 although the mechanism "
+        "reports epsilon 0.5 [" + "; ".join(d for f, d in out if f) + "]")
+
+
+def _wit_stale_exponential(ctx):
+    out = []
+    for cls in (M.Exponential, M.PermuteAndFlip):
+        f, d = _stale_witness(lambda e, cls=cls: cls(epsilon=e, sensitivity=1.0, utility=[0.0, 1.0, 2.0], random_state=7),
+                              lambda m: m.randomise(), cls.__name__)
+        out.append((f, d))
+    return any(f for f, _ in out), (
+        "Exponential / PermuteAndFlip compute `_probabilities` in __init__ and never again: Exponential(epsilon=3.0, sensitivity=1, "
+        "utility=[0,1,2]) followed by mech.epsilon = 0.5 keeps cumulative probabilities [0.039, 0.214, 1] where a fresh "
+        "instance has [0.254, 0.581, 1] [" + "; ".join(d for f, d in out if f) + "]")
+
+
+def _wit_stale_categorical(ctx):
+    ul = [["a", "b", 1], ["a", "c", 2], ["b", "c", 1]]
+    f, d = _stale_witness(lambda e: M.ExponentialCategorical(epsilon=e, utility_list=ul, random_state=7),
+                          lambda m: m.randomise("a"), "ExponentialCategorical")
+    return f, ("ExponentialCategorical keeps `_normalising_constant` from __init__ while `_get_prob` reads the live epsilon: "
+               "ExponentialCategorical(epsilon=3.0, utility_list=[a-b 1, a-c 2, b-c 1]) followed by mech.epsilon = 0.5 releases a law "
+               "that is neither the epsilon=3 nor the epsilon=0.5 one (output 'c' has mass 0 from 'a' but 0.02 from 'c': "
+               "unbounded ratio) [" + d + "]")
+
+
+WITNESSES = {"C01:categorical:isclose-balanced": _wit_isclose, "C01:exponential:negative-measure": _wit_negmeasure,
+             "C01:geometric-family:stale-scale-after-assignment": _wit_stale_geometric,
+             "C01:exponential-family:stale-probabilities-after-assignment": _wit_stale_exponential,
+             "C01:ExponentialCategorical:stale-normaliser-after-assignment": _wit_stale_categorical}
